@@ -7,4 +7,7 @@ McView == <<pop, best, arch, shownK, reg>>
 St  == [pop |-> pop, best |-> best, arch |-> arch, shownK |-> shownK, reg |-> reg]
 StP == [pop |-> pop', best |-> best', arch |-> arch', shownK |-> shownK', reg |-> reg']
 PrintEdge == PrintT(<<"EDGE", ToJson([from |-> St, act |-> act', res |-> res', to |-> StP])>>)
+\* the same export without the user-operator calls (thorough tier: they are toured on the smaller model)
+NoUserOps == act'.op \notin {"user_mutation", "user_mutation_v", "user_select_replace"}
+PrintEdgeNoUser == NoUserOps /\ PrintEdge
 =============================================================================
